@@ -164,8 +164,51 @@ def wire_points_config(ext):
         yield "entry CNTL(k) is location k with '*' replaced by the coordinate in force (vias skipped, order kept)", \
             SBool(z3.ForAll([j], z3.Implies(z3.And(0 <= j, j < n, z3.Not(ISVIA(j))), z3.And(X[CNTL(j)] == RX(j), Y[CNTL(j)] == RY(j), *([E[CNTL(j)] == PE(j)] if ext else [])))))
         ex.prove(st, 'mustfail:the result is always empty', SBool(ln == 0), ex.fn, expect='refuted')
+    def replay(model, obl, ex):
+        ev = lambda e: model.eval(e, model_completion=True)
+        n = ev(ex.g['n']).as_long()
+        if not 1 <= n <= 40:
+            return None
+        pts = []
+        for k in range(n):
+            kk = z3.IntVal(k)
+            if z3.is_true(ev(ISVIA(kk))):
+                pts.append(['via', None])
+                continue
+            x = None if z3.is_true(ev(XNONE(kk))) else ev(PX(kk)).as_long()
+            y = None if z3.is_true(ev(YNONE(kk))) else ev(PY(kk)).as_long()
+            pts.append([x, y] + ([ev(PE(kk)).as_long()] if ext else []))
+        return 'contracts.def_c:run_wire_points', {'points': pts}
+
+    def small(ex):
+        return [ex.g['n'] <= 6]
     contract = {'post': post, 'assign_hook': assign_hook, 'expr_fork': True, 'loops': {0: {'inv': inv, 'modifies': ['pts_len', 'pts_x', 'pts_y', 'pts_e'], 'kinds': {'p': 'keep', 'prev': 'keep'}}}}
-    return Config('any point list' + (' with extension values' if ext else ''), contract, setup, None)
+    def finite(ex):
+        # finite expansion of the quantifiers for undecided obligations: indices / coordinates in [-1, 5], at most 4 points
+        return -1, 5, [ex.g['n'] <= 4]
+    cfg = Config('any point list' + (' with extension values' if ext else ''), contract, setup, replay, finite=finite)
+    cfg.small = small
+    return cfg
+
+
+def run_wire_points(args):
+    """the real DefWire.wire_points on a concrete point list against the statement of the contract (independent straight-line oracle)"""
+    from kyupy.def_file import DefWire
+    w = DefWire()
+    w.points = [tuple(('VIA12', None) if p[0] == 'via' else p) for p in args['points']]
+    try:
+        got = list(w.wire_points)
+    except Exception as e:  # noqa
+        return {'reproduced': True, 'observed': repr(e)}
+    want, cur = [], None
+    for p in w.points:
+        if isinstance(p[0], str):
+            continue
+        cur = (p[0] if p[0] is not None else cur[0], p[1] if p[1] is not None else cur[1]) + tuple(p[2:])
+        want.append(cur)
+    if len(want) < 2:
+        want = []
+    return {'reproduced': [tuple(x) for x in got] != want, 'observed': [list(x) for x in got], 'expected': [list(x) for x in want]}
 
 
 def targets():
